@@ -25,14 +25,29 @@ PROPERTY Monotone
 PROPERTY Terminates
 """
 _docs: List[Dict[str, Any]] = []
+_ctx: Dict[str, Any] = {}
 
 
 def entry_points(text: str) -> List[Tuple[str, Any]]:
-    import jsonpath
+    import jsonpath as _jp
 
-    env = jsonpath.JSONPathEnvironment()
-    comp = jsonpath.compile(text)
-    ecomp = env.compile(text)
+    class _K:
+        """The library's entry points with the caller's filter context always supplied."""
+
+        def __init__(self, target: Any) -> None:
+            self._t = target
+
+        def __getattr__(self, name: str) -> Any:
+            fn = getattr(self._t, name)
+            if name in ("findall", "finditer", "match", "query"):
+                return lambda *a: fn(*a, filter_context=untag(_ctx["ctx"]))
+            return fn
+
+    jsonpath = _K(_jp)
+
+    env = _K(_jp.JSONPathEnvironment())
+    comp = _K(_jp.compile(text))
+    ecomp = _K(env.compile(text))
 
     def vals(it: Any) -> List[Any]:
         return [m.obj for m in it]
@@ -69,7 +84,7 @@ def replay(rec: Dict[str, Any]) -> List[Tuple[str, Dict[str, Any], str]]:
             return [(f"compile-raised-{exc_family(e)}|{ops}", {"query": text, "tagged": rec}, f"{type(e).__name__}: {e}")]
         for d, dt in enumerate(_docs):
             base = untag(dt["doc"])
-            exp = [canon(tag(walk(base, l))) for l in rec["res"][d]]
+            exp = [canon(v) for v in rec["res"][d]]
             forms = [("parsed", lambda: untag(dt["doc"]))]
             if isinstance(base, (list, dict)):
                 forms += [("json-text", lambda: json.dumps(base)), ("file", lambda: io.StringIO(json.dumps(base)))]
@@ -84,7 +99,7 @@ def replay(rec: Dict[str, Any]) -> List[Tuple[str, Dict[str, Any], str]]:
                         got = []
                     if disc:
                         return [(f"{ename}|{fname}|{disc}|{ops}", {"query": text, "doc": show(dt["doc"]), "entry": ename, "form": fname,
-                                 "expected": [walk(base, l) for l in rec["res"][d]], "observed": str(got)[:300], "tagged": rec}, disc)]
+                                 "expected": [show(v) for v in rec["res"][d]], "observed": str(got)[:300], "tagged": rec}, disc)]
     return []
 
 
@@ -96,6 +111,7 @@ def run(chk: Check, tier: str, seed: int) -> None:
     for x in r.records:
         if "docs" in x:
             _docs = x["docs"]
+            _ctx["ctx"] = x["ctx"]
         else:
             recs.append(x)
     for rec, res in zip(recs, core.pmap(replay, recs)):
@@ -105,7 +121,7 @@ def run(chk: Check, tier: str, seed: int) -> None:
         for sig, case, what in res:
             chk.violation(sig, case, what)
     for rec in recs[10:12] + recs[-3:]:
-        chk.sample({"query": untext(rec["text"]), "expected_doc0": [walk(untag(_docs[0]["doc"]), l) for l in rec["res"][0]]})
+        chk.sample({"query": untext(rec["text"]), "expected_doc0": [show(v) for v in rec["res"][0]]})
     chk.exhaustive = True
     chk.rule = ("terminal states of MC_Compound.tla: compound queries with 1-3 (thorough 4) operands from 6 simple queries over | and & in every arrangement, 2 "
                 "spellings x 5 documents x 15 entry points x {parsed, JSON text, file object}; non-trivial = compound with a non-empty result; distinct by text")
@@ -116,6 +132,7 @@ def replay_file(case: Dict[str, Any]) -> int:
     global _docs
     r = tlc("MC_Compound", CFG.format(n=1))
     _docs = [x for x in r.records if "docs" in x][0]["docs"]
+    _ctx["ctx"] = [x for x in r.records if "docs" in x][0]["ctx"]
     res = replay(case["case"]["tagged"])
     for sig, c, what in res:
         print("DIVERGENCE", sig, c["query"], c["expected"], c["observed"])
